@@ -141,5 +141,33 @@ theorem heightFuncList_of_indep (t : STab) (hli : LinearIndependent (ZMod 2) (fu
   obtain ⟨l, h⟩ := heightFuncList_total t hli
   rw [h, heightFuncList_eq_finrank t l h]
 
+/-- the height list is unchanged by row operations: if it exists after them, it exists before them and is the same -/
+theorem heightFuncList_ops (t t1 : STab) (o : Ops 0 t t1) (l1 : List Int) (h1 : t1.heightFuncList = .ok l1) :
+    t.heightFuncList = .ok l1 := by
+  have hmem := o.vec_mem
+  have hle := o.gspace_le
+  have e := o.n_eq
+  obtain ⟨n, row⟩ := t
+  obtain ⟨n1, row1⟩ := t1
+  simp only at e
+  subst e
+  have geq : (STab.mk n1 row1).gspace = (STab.mk n1 row).gspace := by
+    apply le_antisymm
+    · apply Submodule.span_le.2
+      rintro _ ⟨i, rfl⟩
+      exact hmem i.val i.isLt
+    · exact hle
+  have hfr := heightFuncList_ok_finrank _ l1 h1
+  rw [geq] at hfr
+  have hli : LinearIndependent (ZMod 2) (fun i : Fin n1 => (row i).vec n1) := by
+    rw [linearIndependent_iff_card_eq_finrank_span, Fintype.card_fin]
+    exact hfr.symm
+  rw [heightFuncList_of_indep (STab.mk n1 row) hli, heightFuncList_eq_finrank _ l1 h1, geq]
+
+/-- in particular `height_func_list(rref(t))` (what `determine_n_emitters` evaluates) is `height_func_list(t)` -/
+theorem heightFuncList_rref (t t1 : STab) (brs : List String) (hr : t.rref = .ok (t1, brs)) (l1 : List Int)
+    (h1 : t1.heightFuncList = .ok l1) : t.heightFuncList = .ok l1 :=
+  heightFuncList_ops t t1 (rref_ops t t1 brs hr) l1 h1
+
 end STab
 end Graphiq
